@@ -93,7 +93,17 @@ class SetupCfgWriter(DependencyWriter):
             dep_sep = ","
 
         try:
-            last_dep_idx = clean_lines.index(last_dep_line)
+            # Search from the `install_requires` key on: the same text may appear
+            # earlier in the file (e.g. a keyword equal to a requirement's name)
+            start = next(
+                (
+                    idx
+                    for idx, line in enumerate(clean_lines)
+                    if line.startswith("install_requires")
+                ),
+                0,
+            )
+            last_dep_idx = clean_lines.index(last_dep_line, start)
         except ValueError:
             # we were unable to find the last req line due to some formatting issue
             logger.debug("Unable to add dependencies to setup.cfg file.")
